@@ -169,7 +169,7 @@ func runStatus(t *testing.T, sh statusShape, id, tag string) *statusCase {
 	if sh.TimeoutMs > 0 {
 		copts.GlobalTimeout = time.Duration(sh.TimeoutMs) * time.Millisecond
 	}
-	cl := ckit.NewCluster(t, copts)
+	cl := newCluster(t, copts)
 	defer cl.Close()
 	cl.Wipe()
 	hub := newScriptHub(cl)
@@ -325,7 +325,9 @@ func genStatus(t *testing.T, out *hx.Out, budget int) {
 		if i >= budget {
 			break
 		}
-		out.Emit(runStatus(t, sh, fmt.Sprintf("status-%d", i), fmt.Sprintf("c%d", i)))
+		i, sh := i, sh
+		try := 0
+		emitGuarded(t, out, func() any { try++; return runStatus(t, sh, fmt.Sprintf("status-%d", i), fmt.Sprintf("c%dt%d", i, try)) })
 	}
 }
 
